@@ -911,7 +911,14 @@ def _def_to_py_ast(  # pylint: disable=too-many-locals
     assert node.op == NodeOp.DEF
 
     defsym = node.name
-    ns_name = _load_attr(_NS_VAR_VALUE)
+    # Intern into the namespace the `def` was compiled in (that of the Var the analyzer
+    # created for it), not into whatever `*ns*` is bound to when the code runs: a `def`
+    # inside a function body may run while another namespace is current.
+    ns_name = ast.Call(
+        func=_NEW_SYM_FN_NAME,
+        args=[ast.Constant(node.var.ns.name)],
+        keywords=[],
+    )
     def_name = ast.Call(
         func=_NEW_SYM_FN_NAME, args=[ast.Constant(defsym.name)], keywords=[]
     )
